@@ -10,6 +10,10 @@ CLAIMED = {
          "symbolic execution of go/ssa + SMT (bit-vectors); symbolic keys so aliasing/collision patterns are solver-chosen", "DESIGN.md §6 C14"),
  "C19": ("One MakeSymbol/GenSymbol step from an arbitrary (havocked) symbol table satisfying the bijection invariant with an unrelated counter - covers histories of any length that preserve the invariant - plus bounded family histories (make/gensym/duplicate/clone) over symbolic names; name bytes, numbers and the counter are SMT variables.",
          "symbolic execution of go/ssa + SMT; inductive step from an arbitrary valid table, symbolic name bytes", "DESIGN.md §6 C19"),
+ "C01": ("Bounded symbolic execution of the real entry points: (S) Stack.Get/Pop/GetExpressions/PopExpressions from stacks of 0-3 elements with a symbolic count; (G) every form (head args...) over 38 heads (all special forms, panicking builtins, a user function, an unbound name) x 12 argument shapes x <=2 (quick) / <=3 (thorough) arguments through Generate and Run; (T) every byte string of length <=2 (quick) / <=3 (thorough) through EvalString. A Go panic escaping the entry point is the violation; the solver decides every data-dependent branch, so each path stands for a class of inputs.",
+         "symbolic execution of go/ssa + SMT; symbolic text bytes and operands, case-split program shapes", "DESIGN.md §6 C01"),
+ "C13": ("Bounded symbolic execution of Lexer/Parser: (H) the lexer with every scalar of its state havocked (vHavoc) reads each text of <=2 (quick) / <=3 (thorough) symbolic bytes exactly like a fresh one - an inductive step over all parse histories; (second parse) the same through the API with an arbitrary first text; (K) text of 2..3 (4) symbolic bytes delivered whole vs cut at every position with the parser pausing in between; (L) the last token of a text is not lost.",
+         "symbolic execution of go/ssa + SMT; havocked (arbitrary) lexer pre-state, regex cascade encoded as NFA terms over symbolic runes", "DESIGN.md §6 C13"),
 }
 NA = {
  "C10": "record<->Go struct conversion is a reflect walk (runtime/unsafe code, no SSA to execute); a model of reflect faithful enough to judge it would itself be the thing under test",
